@@ -29,6 +29,10 @@ NM(s) == LET r == Parse(s)
 ASSUME ExportWide => PrintT(<<"A", ToJson(Alphabet \cup ScalarChars \cup Blank \cup {"0", "Z", "z"})>>)
 ASSUME ExportWide => \A T \in Wide : PrintT(<<"V", ToJson(Vec("wide", T))>>)
 ASSUME ExportWide => \A T \in Seeds : PrintT(<<"V", ToJson(Vec("seed", T))>>)
+\* tuples and structures with MANY members (two-digit member indexes), alone and inside a list
+ManyScalars(n) == [i \in 1..n |-> IF i % 3 = 0 THEN Str_ ELSE IF i % 3 = 1 THEN I32 ELSE Sc("b")]
+Many == UNION {{Tuple(ManyScalars(n)), List(Tuple(ManyScalars(n)))} : n \in {9, 10, 11, 12, 13, 21}}
+ASSUME ExportWide => \A T \in Many : RoundTrip(T) /\ PrintT(<<"V", ToJson(Vec("many", T))>>)
 ASSUME ExportWide => \A T \in CaseClash : RoundTrip(T) /\ PrintT(<<"V", ToJson(CaseVec(T))>>)
 ASSUME ExportNear => \A T \in Seeds : \A s \in NearMiss(Sig(T)) : PrintT(<<"N", ToJson(NM(s))>>)
 
